@@ -121,7 +121,7 @@ func (g *gapLexer) accept(gap string, atLineStart, afterStmt bool) int {
 		case strings.HasPrefix(rest, "/*"):
 			j := strings.Index(rest[2:], "*/")
 			if j < 0 {
-				return -1
+				return i // a block comment that is never closed is no comment: its text is statement text
 			}
 			i += 2 + j + 2
 			atLineStart = false
